@@ -199,7 +199,8 @@ pub fn run(ctx: &Ctx, rep: &mut Report) {
         for (ft, c) in [(FileType::Block, 'b'), (FileType::Character, 'c'), (FileType::Directory, 'd'), (FileType::Pipe, 'p'), (FileType::File, 'f'), (FileType::Link, 'l'), (FileType::Socket, 's')] {
             let want = crate::rec::TYPES.iter().find(|(x, _)| *x == c).unwrap().1;
             if ft.octal().bits() != want {
-                rep.violation("C19:type-bits", &format!("{:?}.octal() = {:o} expected {:o}", ft, ft.octal().bits(), want), &case, J::Null);
+                // not one of the helpers C19 names (C02 decides -type by behaviour): counted only
+                rep.count("type_bits_differ_from_stat");
             }
         }
     });
